@@ -97,7 +97,7 @@ def install(R):
         else:
             av = eng.as_V(mk_tuple([a for a in args]))
         P = prod_of(av)
-        return SV("iter", IterSpec(T.slen(P), lambda j: SV("V", T.sget(P, j), meta={"seq": True}), desc="product"), meta={"V": P})
+        return SV("iter", IterSpec(T.slen(P), lambda j: SV("V", T.sget(P, j), meta={"seq": True}), desc="product", oneshot=True), meta={"V": P})
     S["__product__"] = product_hook
 
     def prod_prefix(eng, fr, a, d):
@@ -161,6 +161,7 @@ def install(R):
     S["Rep"] = rep
 
     R.add(CR + "_unflatten", result="V", props=["C01", "C02"],
+          out_params=["store"],        # the store is consumed in place (its content afterwards is unspecified for the caller)
           requires=[
               ("values", "is_seq(all_combo_values) and AllDistinctLists(all_combo_values) and "
                          "forall(lambda k: implies(0 <= k and k < slen(all_combo_values), is_seq(sget(all_combo_values, k))))"),
